@@ -28,6 +28,7 @@ OBJ_FAMILIES = {
 API_TARGETS = ["api:%s:%s" % (o, f) for o, fs in OBJ_FAMILIES.items() for f in fs]
 EAPI_TARGETS = ["eapi:nsp", "eapi:ssock", "eapi:csock"]
 
+LIN_TARGETS = ["ls", "es", "api:mgr:Ping", "api:csock:Connect", "api:nsp:Connection", "eapi:nsp", "eapi:csock"]
 KEY_LIFECYCLE = "off-by-func-identity:lifecycle"
 KEY_CLOSURES = "closures-share-code-pointer"
 
@@ -450,6 +451,161 @@ def reent_suite(ctx, vh, batch, st, name, targets, n, replay=None):
             batch.add(sum(len(r["steps"]) for r in chunk) * 10, term, consume)
 
 
+# ---------------------------------------------------------------- linearizability of the registry calls
+def lin_model_step(kind, state, op):
+    """The atomic model of one call on a python state (dict name -> [on list, once list]); returns the
+    output of an occurrence or None.  Mirrors step/estep/astep for the calls the lin suite makes:
+    named handlers of a lifecycle family (kind api) are never registered ones."""
+    name = op[0]
+    e = op[1] if kind == "es" and name != "offall" else 0
+    on, once = state.setdefault(e, [[], []])
+    if name == "on":
+        on.append(op[2] if kind == "es" else op[1])
+    elif name == "once":
+        once.append(op[2] if kind == "es" else op[1])
+    elif name == "offall":
+        for k in state:
+            state[k] = [[], []]
+    elif name == "off":
+        hs = op[2] if kind == "es" else op[1]
+        k = op[3] if kind == "es" else op[2]
+        if len(hs) + k == 0:
+            state[e] = [[], []]
+        elif kind != "api":
+            state[e] = [[h for h in on if h not in hs], [h for h in once if h not in hs]]
+    elif name == "fire":
+        out = on + once
+        state[e] = [list(on), []]
+        return out
+    return None
+
+
+def linearize(kind, calls):
+    """Depth-first search for an order of `calls` that respects real time and explains every
+    observed occurrence under the atomic model.  Returns the order (list of indexes) or None."""
+    n = len(calls)
+    order, seen = [], set()
+
+    def freeze(state):
+        return tuple(sorted((k, tuple(v[0]), tuple(v[1])) for k, v in state.items()))
+
+    def rec(placed, state):
+        if len(order) == n:
+            return True
+        key = (placed, freeze(state))
+        if key in seen:
+            return False
+        seen.add(key)
+        min_res = min(calls[i]["res"] for i in range(n) if not placed >> i & 1)
+        for i in range(n):
+            if placed >> i & 1 or calls[i]["inv"] > min_res:
+                continue  # some unplaced call returned before this one was invoked
+            st2 = {k: [list(v[0]), list(v[1])] for k, v in state.items()}
+            out = lin_model_step(kind, st2, calls[i]["op"])
+            if calls[i]["out"] is not None and out != calls[i]["out"]:
+                continue
+            order.append(i)
+            if rec(placed | 1 << i, st2):
+                return True
+            order.pop()
+        return False
+
+    return order if rec(0, {}) else None
+
+
+def lin_op_term(kind, op, menu):
+    """model op of a call of the lin suite: not-registered handlers named by an Off are one fresh id"""
+    if op[0] == "off":
+        if kind == "es":
+            hs = [fval(menu, h) for h in op[2]] + ([gpair(gN(77), gN(0))] if op[3] else [])
+            return "(EOff %s %s)" % (gN(op[1]), glist(hs))
+        hs = [gN(h) for h in op[1]] + ([gN(77)] if op[2] else [])
+        return "(%s %s)" % ("AOff" if kind == "api" else "Off", glist(hs))
+    return op_term(kind, op, menu)
+
+
+def lin_suite(ctx, vh, batch, st, targets, rounds, absent=100000):
+    """Atomicity of every registry call: concurrent histories must have a linearization."""
+    su = st.suite("linearizable", "concurrent histories: 3 goroutines, a long Off (naming %d unregistered handlers) "
+                  "with On/Once/Off/OffAll/occurrences of other goroutines falling inside it; a real-time-respecting "
+                  "order explained by the atomic model must exist" % absent)
+    rows = ctx.vh_jsonl(vh, "handlers", ["-mode", "lin", "-target", ",".join(targets), "-seed", ctx.seed,
+                                         "-n", rounds, "-absent", absent])
+    if rows is None:
+        return
+    su["total"] += len(rows)
+    by_kind = {}
+    for r in rows:
+        kind = kind_of(r["target"])
+        calls = r["calls"]
+        longs = [c for c in calls if c["op"][0] == "off" and c["op"][-1] == absent and c["g"] > 0]
+        inside = sum(1 for c in calls if c["g"] > 0 and any(l is not c and l["inv"] < c["inv"] < l["res"] for l in longs))
+        ctx.count(1, nontrivial_key=(r["target"], repr(calls)) if inside else None,
+                  dist="lin:%s:%d-calls-inside-a-long-off" % (kind, min(inside, 3)))
+        order = None if r["panicmsg"] else linearize(kind, calls)
+        if order is None:
+            su["oracle_bad"] += 1
+            su["unknown"] += 1
+            pre = [c["op"] for c in calls if c["g"] == 0 and c["op"][0] != "fire"]
+            conc = [(c["g"], c["op"], c["inv"], c["res"], c["out"]) for c in calls if c["g"] > 0 or c["op"][0] == "fire"]
+            what = ("%s: concurrent history has no linearization (a registry call is not atomic%s): after the "
+                    "sequential registrations %s, calls (goroutine, op [.., number of unregistered handlers named], "
+                    "invoked, returned, occurrence ran) %s: no order respecting real time makes the atomic model "
+                    "return these occurrences" % (
+                        r["target"], ("; a call panicked: " + r["panicmsg"]) if r["panicmsg"] else "",
+                        "".join(("+" if o[0] == "on" else "1") + str(o[-1]) for o in pre) + " (+h = On h, 1h = Once h)",
+                        conc))
+            st.pending.append((len(calls), what, {"kind": "failing-input", "engine": "handlers", "mode": "lin",
+                                                  "target": r["target"], "ops": [c["op"] for c in calls],
+                                                  "history": calls}))
+            continue
+        by_kind.setdefault("es-api" if kind == "es" and r["lens"] is None else kind, []).append((r, order))
+    for kind, items in by_kind.items():
+        ctx.sample({"suite": "linearizable", "case": {"target": items[0][0]["target"],
+                                                      "calls": items[0][0]["calls"], "linearization": items[0][1]}})
+        agree_fn, oracle_fn = {"ls": ("ls_agree", "ls_oracle"), "es": ("es_agree", "es_oracle"),
+                               "es-api": ("es_agree_nolens", "es_oracle_nolens"),
+                               "api": ("api_agree", "api_oracle")}[kind]
+        mkind = "es" if kind == "es-api" else kind
+        for c0 in range(0, len(items), 40):
+            chunk = items[c0:c0 + 40]
+            terms = []
+            for r, order in chunk:
+                calls = [r["calls"][i] for i in order]
+                ops = glist(lin_op_term(mkind, c["op"], r["menu"]) for c in calls)
+                outs = glist(glist(gN(x) for x in c["out"]) for c in calls if c["out"] is not None)
+                stamps = glist(gpair(gN(c["inv"]), gN(c["res"])) for c in calls)
+                if kind == "ls":
+                    l = r["lens"]
+                    case = gpair(ops, outs, "false", gpair(gN(l[0]), gN(l[1]), gN(l[2])))
+                elif kind == "es":
+                    case = gpair(ops, outs, "false", gpair(gN(r["lens"][0]), gN(r["lens"][1])))
+                else:
+                    case = gpair(ops, outs, "false")
+                terms.append("(lin_order_ok %s && %s %s, %s %s)" % (stamps, agree_fn, case, oracle_fn, case))
+            term = glist(terms)
+
+            def consume(v, chunk=chunk):
+                bs = [x == "true" for x in re.findall(r"true|false", v)]
+                if len(bs) != 2 * len(chunk):
+                    raise RuntimeError("cannot parse lin-suite result: %s" % v[:300])
+                for j, (r, order) in enumerate(chunk):
+                    if not bs[2 * j]:
+                        su["agree_bad"] += 1
+                        if su["first_agree"] is None:
+                            su["first_agree"] = {"target": r["target"], "calls": r["calls"], "linearization": order,
+                                                 "note": "the order found by the search is rejected by the Coq model"}
+                    if not bs[2 * j + 1]:
+                        su["oracle_bad"] += 1
+                        su["unknown"] += 1
+                        st.pending.append((len(r["calls"]), "%s: linearized history %s fails the specification" % (
+                            r["target"], [r["calls"][i]["op"] for i in order]),
+                            {"kind": "failing-input", "engine": "handlers", "mode": "lin", "target": r["target"],
+                             "ops": [c["op"] for c in r["calls"]], "history": r["calls"]}))
+
+            batch.add(sum(len(r["calls"]) for r, _ in chunk) * 10, term, consume)
+
+
 def race_suite(ctx, vh, batch, st, handlers, goroutines, repeats):
     rows = []
     for rep in range(repeats):
@@ -536,6 +692,8 @@ def run(ctx):
         rp = json.load(open(rf))["replay"]
         if rp.get("mode") == "race":
             race_suite(ctx, vh, batch, st, 10000, 16, 3)
+        elif rp.get("mode") == "lin":
+            lin_suite(ctx, vh, batch, st, [rp["target"]], 200)
         elif rp.get("mode") == "reent":
             reent_suite(ctx, vh, batch, st, "replay", None, 0, replay=rp)
         else:
@@ -554,6 +712,7 @@ def run(ctx):
     random_suite(ctx, vh, batch, st, "api", API_TARGETS + EAPI_TARGETS, 15 if q else 300, 30)
     reent_suite(ctx, vh, batch, st, "stores", ["ls", "es"], 150 if q else 2000)
     reent_suite(ctx, vh, batch, st, "api", API_TARGETS + EAPI_TARGETS, 5 if q else 100)
+    lin_suite(ctx, vh, batch, st, LIN_TARGETS, 25 if q else 250)
     race_suite(ctx, vh, batch, st, 10000, 16, 1 if q else 5)
     batch.run(ctx, "c18", jobs=8 if q else 14)
     st.refine.run(ctx, "c18_exact", jobs=8)
